@@ -105,6 +105,7 @@ mod c08 {
     #[kani::proof] #[kani::unwind(8)] fn c08_axle_2() { axle_n::<2>(); }
     #[kani::proof] #[kani::unwind(8)] fn c08_axle_3() { axle_n::<3>(); }
     #[kani::proof] #[kani::unwind(8)] fn c08_axle_4() { axle_n::<4>(); }
+    #[kani::proof] #[kani::unwind(9)] fn c08_axle_5() { axle_n::<5>(); }
     // ---- differential: side1 + side2 = sum; distrusted branch recomputed from the other two; equal trust: Lagrange solution;
     // nothing is written until every branch the mode needs has data
     #[kani::proof]
@@ -173,8 +174,8 @@ def spec(ctx):
         Harness("c08_gear_train", "e2", unwind=4, skeletons=b2, clause="gear train: every presence pattern, ratio any f32"),
     ]
     hs += [Harness("c08_teeth_%d" % n, "e2", unwind=9, clause="GearTrain::new with %d tooth counts" % n) for n in ((2, 3, 4) if ctx.quick else (2, 3, 4, 5, 6))]
-    ax = (1, 2, 3) if ctx.quick else (1, 2, 3, 4)
-    hs += [Harness("c08_axle_%d" % n, "e2", unwind=8, skeletons=list(itertools.product([0, 1], repeat=n)), clause="axle with %d terminals: every subset holding data" % n) for n in ax]
+    ax = (1, 2, 3) if ctx.quick else (1, 2, 3, 4, 5)
+    hs += [Harness("c08_axle_%d" % n, "e2", unwind=9, skeletons=list(itertools.product([0, 1], repeat=n)), clause="axle with %d terminals: every subset holding data" % n) for n in ax]
     hs.append(Harness("c08_differential", "e2", unwind=4, skeletons=[(m,) + p for m in range(5) for p in itertools.product([0, 1], repeat=3)],
                       clause="differential: 4 distrust modes (+ default constructor) x every presence pattern of the three branches"))
     return {
